@@ -122,17 +122,18 @@ func transform(text string, op loOps, rng *rand.Rand, declLines map[int]bool) st
 			switch op.Comment {
 			case "col0":
 				put = true
-				out = append(out, "# verif layout comment")
+				out = append(out, []string{"# verif layout comment", "#", "# "}[rng.Intn(3)])
 			case "indented":
 				put = true
-				out = append(out, lead+"# verif layout comment")
+				out = append(out, lead+[]string{"# verif layout comment", "#", "##"}[rng.Intn(3)])
 			case "mixed":
 				if rng.Intn(3) == 0 {
 					put = true
+					c := []string{"# verif: comment", "#", "#\t"}[rng.Intn(3)]
 					if rng.Intn(2) == 0 {
-						out = append(out, "# verif: comment")
+						out = append(out, c)
 					} else {
-						out = append(out, lead+"# verif: comment")
+						out = append(out, lead+c)
 					}
 				}
 			}
